@@ -6,6 +6,6 @@ CONSTANTS
   Rank5 = FALSE
   ReshapeRank = 3
   ReshapeLen = 3
-  AxesLen = 2
+  AxesLen = 3
 INVARIANT Laws
 CHECK_DEADLOCK FALSE
